@@ -445,6 +445,44 @@ def compare_call(S, scn, ci, c, m):
                 if missing:
                     of("field-in-no-ordered-group", {"fields": missing, "groups": og}, "every field of the rand set is randomized")
             st["swizzle_candidates"] = st.get("swizzle_candidates", 0) + sum(len(g) for g in impl_groups)
+            # C15, 'when nothing else constrains the field': a rand set that consists of one random field and the
+            # statements of one dist must be steered by exactly one requested equality, and return that value
+            dists = [s_ for blk in scn["blocks"] for s_ in blk["stmts"] if s_["k"] == "dist"]
+            if c["outcome"] == "ok" and len(b["rs"]["fields"]) == 1 and len(dists) >= 1:
+                fname = b["rs"]["fields"][0]
+                fi = names.index(fname)
+                mine = [d_ for d_ in dists if d_["e"].get("i") == fi]
+                others = [s_ for blk in scn["blocks"] for s_ in blk["stmts"] if s_["k"] != "dist"]
+                if len(mine) == 1 and scn["fields"][fi]["rand"] and b["rs"]["n_hard"] == 1 + len(mine[0]["weights"]) \
+                        and not (c["call"].get("inline")):
+                    import re
+                    flat = [x for g in impl_groups for x in g]
+                    mm = re.match(r"^\(eq .*\(const (-?\d+) (\d+)\)\)$", flat[0]) if len(flat) == 1 else None
+                    got = c["after"][fi]
+                    if mm is None:
+                        of("dist-field-not-steered-by-weights", {"field": fname, "candidates": flat},
+                           "one requested equality field == drawn value")
+                    else:
+                        w_ = scn["fields"][fi]["w"]
+                        req_v = int(mm.group(1))
+
+                        def _iv(x):
+                            return x.get("v") if x.get("k") == "int" else None
+
+                        def _zero_covers(wd):
+                            wv = _iv(wd["w"])
+                            if wv != 0:
+                                return False
+                            if "single" in wd:
+                                return _iv(wd["single"]) == req_v
+                            return _iv(wd["lo"]) is not None and _iv(wd["lo"]) <= req_v <= _iv(wd["hi"])
+                        # entries may overlap; a value inside a zero-weight entry is excluded, so the request is infeasible
+                        excluded = any(_zero_covers(wd) for wd in mine[0]["weights"]) or \
+                            any(_iv(wd["w"]) is None for wd in mine[0]["weights"])
+                        if not excluded and (req_v - got) % (1 << w_) != 0:
+                            of("dist-free-field-did-not-take-drawn-value", {"field": fname, "requested": int(mm.group(1)), "returned": got},
+                               "the drawn value is returned when nothing else constrains the field")
+                    st["dist_free_sets"] = st.get("dist_free_sets", 0) + 1
         if c["outcome"] == "ok":
             if not m["drawsOkAll"] or m["drawsLeft"] != 0:
                 cf("draws", {"ok": m["drawsOkAll"], "left": m["drawsLeft"]}, len(c.get("draws", [])))
@@ -571,6 +609,8 @@ def run(ck, prop, n, profile, jobs=None, extra=None):
         per = (n + jobs - 1) // jobs
         for i in range(0, n, per):
             chunks.append((prop, ck.seed, i, min(n, i + per), profile, None))
+    if not chunks:
+        return set()
     if len(chunks) == 1:
         results = [_worker(chunks[0])]
     else:
